@@ -65,7 +65,7 @@ def facts(src, strip_comments, fn_body, repo=None):
                         continue        # does not fire inside MULTI: the command reaches the queue test
                     ok = False
                 names += re.findall(r'"([A-Z]+)"', mm.group(2))
-            out["pre_queue"] = names if ok and names else None
+            out["pre_queue"] = names if ok else None      # may be empty: the queue test comes first
 
     # ---- should_queue_command
     sq = fn_body(tx, "should_queue_command")
